@@ -125,7 +125,7 @@ def check_model(chk: harness.Check, name: str, text: str, rng, n_instances: int,
                     chk.violation(
                         key,
                         {"model": name, "text": text, "class": inst.cls, "definition": definition,
-                         "instance": instances.to_jsonable_sample(inst), "document": doc,
+                         "instance": repr(inst)[:20000], "document_json": json.dumps(doc),
                          "detail": detail},
                     )
         chk.hist("recogniser", "invariants_recognised", op.rec.recognised)
